@@ -22,6 +22,7 @@ type Config struct {
 	InjectiveConcat bool
 	InjectiveSprintf bool
 	ExactDecimal bool
+	StructuredKeys bool
 	DecodeMaxLen int
 	ParamMaxLen int
 	Solver          string
